@@ -148,6 +148,56 @@ def retry_after_recursion_error(rec):
                 break
 
 
+def deep_clone_from_root(rec):
+    """a sum of several thousand terms is a tree several thousand levels deep (the parser builds it
+    with a loop); with the recursion limit raised accordingly, clone_from_root via its deepest node
+    still returns that node's copy at the same depth inside a copy of the WHOLE tree.  Decided here
+    by iterative walks (depth of the result, number of nodes of its tree); the monitors are bypassed."""
+    import sys
+    from mathy_core.expressions import MathExpression
+
+    f = getattr(MathExpression.clone_from_root, "__vmon_original__", MathExpression.clone_from_root)
+    old = sys.getrecursionlimit()
+    for terms in (1500, 4300, 6000):
+        root = D.parse(" + ".join(f"{(i % 9) + 1}{'xyz'[i % 3]}" for i in range(terms)))
+        node = root
+        depth = 0
+        while node.left is not None:
+            node = node.left
+            depth += 1
+
+        def count(r):
+            n, stack = 0, [r]
+            while stack:
+                x = stack.pop()
+                if x is not None:
+                    n += 1
+                    stack.append(x.left)
+                    stack.append(x.right)
+            return n
+
+        total = count(root)
+        sys.setrecursionlimit(60000)
+        try:
+            try:
+                res = f(node)
+            except RecursionError:
+                rec.skip("clone: deep clone_from_root beyond the interpreter's stack")
+                continue
+        finally:
+            sys.setrecursionlimit(old)
+        rec.ev()
+        rec.arm("clone_from_root:very-deep")
+        up, d2 = res, 0
+        while up.parent is not None:
+            up = up.parent
+            d2 += 1
+        n2 = count(up)
+        if d2 != depth or n2 != total or up is root:
+            rec.violation("C13", "clone_from_root/position", "clone_from_root does not return the copy of the node it was called on",
+                          {"deep": True, "summary": f"a sum of {terms} terms: clone_from_root via its deepest node (depth {depth}, tree of {total} nodes) returned a node at depth {d2} in a tree of {n2} nodes"})
+
+
 def drive_tree(rec, root, rng, expr=True):
     nodes = S.nodes_preorder(root)
     # clone of the whole tree and of a few subtrees
@@ -245,6 +295,8 @@ def run(rec, cfg):
     corp = WT.corpus()
     if cfg.shard == 3 % cfg.nshards:
         retry_after_recursion_error(rec)
+    if cfg.shard == 4 % cfg.nshards:
+        deep_clone_from_root(rec)
     if cfg.shard == 0 or True:
         for t in constructed(rng):
             rec.arm("start:constructed")
@@ -299,6 +351,9 @@ def run(rec, cfg):
 
 
 def replay(rec, cfg, w):
+    if w.get("deep"):
+        deep_clone_from_root(rec)
+        return
     if w.get("deep_retry"):
         MC.attach_clone("C13")
         retry_after_recursion_error(rec)
